@@ -188,7 +188,7 @@ def check_case(run, case, use_cli=False):
         mn, mx = opts.get('min_length', 0), opts.get('max_length', 0)
         if (mn or mx) and new_lines:
             lang = oracles.Language(oracles.Disk(target), skip_brute=True)
-            if lang.size() <= 3000:
+            if lang.base and lang.size() <= 3000:
                 bad = {}
                 def expand(rec, item, pcfg):
                     lines, n = monitors.record_guesses(pcfg, item['pt'])
